@@ -31,6 +31,10 @@ pub struct Target {
     pub probe: String,
     pub initial: String,
     pub forms: Vec<Form>,
+    /// assignment text (without prefix) that writes the INITIAL value again, where TeX can express it
+    pub default_text: Option<String>,
+    /// first / last element of an indexed container, or a boundary of a code table
+    pub edge: bool,
 }
 
 #[derive(Clone, Copy, PartialEq, Eq, Debug)]
@@ -53,11 +57,16 @@ pub struct Kind {
 
 pub const NV: usize = 20;
 /// Category codes that are harmless for a character that only ever appears as a control symbol
-/// (`\|`): no escape, end-of-line, ignored, comment or invalid.
+/// (`\|`) or by number: no escape, end-of-line, ignored, comment or invalid.
 const CATS: [u8; 10] = [11, 7, 8, 3, 4, 6, 13, 1, 2, 10];
 
 fn abs_form(name: &'static str, text: impl Fn(usize) -> String + Send + Sync + 'static, obs: impl Fn(usize) -> String + Send + Sync + 'static) -> Form {
     Form { name, gdef: false, prefixes: PLAIN, text: Box::new(text), apply: Box::new(move |_, i| obs(i)) }
+}
+fn with_prefixes(mut f: Form, name: &'static str, prefixes: Prefixes) -> Form {
+    f.name = name;
+    f.prefixes = prefixes;
+    f
 }
 fn prefixed_def(name: &'static str, prefixes: Prefixes, lhs: &'static str, base: usize) -> Form {
     Form { name, gdef: false, prefixes, text: Box::new(move |i| format!("\\def{lhs}{{{}}}", base + i)), apply: Box::new(move |_, i| (base + i).to_string()) }
@@ -65,32 +74,35 @@ fn prefixed_def(name: &'static str, prefixes: Prefixes, lhs: &'static str, base:
 fn letter(base: u8, i: usize) -> char {
     (base + (i % 26) as u8) as char
 }
-/// probe text of a command target: a control word needs a delimiting space, an active char does not
+/// probe text of a command target: a control word needs a delimiting space; a control symbol (`\€`) and an
+/// active character do not (a space after them would be delivered)
 fn exec_probe(lhs: &str) -> String {
-    if lhs.starts_with('\\') {
+    if lhs.starts_with('\\') && lhs[1..].chars().all(|c| c.is_ascii_alphabetic()) {
         format!("{lhs} ")
     } else {
         lhs.to_string()
     }
 }
-/// `!` has to be made active first; `~` is active in the default table
+/// every active-character target other than `~` (active in the default table) has to be made active first
 fn active_setup(lhs: &str) -> String {
-    if lhs == "!" {
-        "\\catcode`\\!=13 ".into()
+    if !lhs.starts_with('\\') && lhs != "~" {
+        format!("\\catcode`\\{lhs}=13 ")
     } else {
         String::new()
     }
 }
 
-fn int_target(name: &'static str, lhs: &'static str, initial: i64, setup: &str, alias: Option<&'static str>) -> Target {
+fn int_target(name: &'static str, lhs: &'static str, initial: i64, setup: &str, alias: Option<&'static str>, edge: bool) -> Target {
     let mut forms = vec![
         abs_form("set", move |i| format!("{lhs}={} ", i + 1), |i| (i + 1).to_string()),
         Form { name: "advance", gdef: false, prefixes: PLAIN, text: Box::new(move |i| format!("\\advance{lhs} by {} ", 100 * (i + 1))), apply: Box::new(|cur, i| (cur.parse::<i64>().unwrap() + 100 * (i as i64 + 1)).to_string()) },
     ];
     if let Some(a) = alias {
         forms.push(abs_form("set-through-alias", move |i| format!("{a}={} ", 50 + i), |i| (50 + i).to_string()));
+        // \global\global is one \global (TeX §1211; prefix.rs test global_squared)
+        forms.push(with_prefixes(abs_form("", move |i| format!("{lhs}={} ", 70 + i), |i| (70 + i).to_string()), "set-global-twice", ("", "\\global\\global")));
     }
-    Target { name, setup: setup.into(), probe: format!("\\the{lhs} "), initial: initial.to_string(), forms }
+    Target { name, setup: setup.into(), probe: format!("\\the{lhs} "), initial: initial.to_string(), forms, default_text: Some(format!("{lhs}={initial} ")), edge }
 }
 
 fn pt(obs: &str) -> (i64, i64) {
@@ -107,18 +119,26 @@ fn glue_obs(n: i64, s: i64) -> String {
         format!("{n}.0pt plus {s}.0pt")
     }
 }
+/// registers an alias kind points at: value-1 of the first / last index and a run in the middle
+fn alias_index(i: usize, last: usize) -> usize {
+    match i {
+        0 => 1,
+        1 => last - 1,
+        _ => 10 + i,
+    }
+}
 
 pub fn kinds() -> Vec<Kind> {
     let mut v = vec![];
-    // ---------------------------------------------------------------- variables
+    // ---------------------------------------------------------------- variables (first and last register of each array)
     v.push(Kind {
         name: "count",
         class: Class::Variable,
         setup: String::new(),
-        targets: vec![int_target("count1", "\\count1", 0, "\\countdef\\ca=1 ", Some("\\ca")), int_target("count2", "\\count2", 0, "", None)],
+        targets: vec![int_target("count0", "\\count0", 0, "\\countdef\\ca=0 ", Some("\\ca"), true), int_target("count32767", "\\count32767", 0, "", None, true)],
         nvals: NV,
     });
-    let dimen = |name: &'static str, lhs: &'static str| Target {
+    let dimen = |name: &'static str, lhs: &'static str, edge: bool| Target {
         name,
         setup: String::new(),
         probe: format!("\\the{lhs} "),
@@ -127,8 +147,10 @@ pub fn kinds() -> Vec<Kind> {
             abs_form("set", move |i| format!("{lhs}={}pt ", i + 1), |i| format!("{}.0pt", i + 1)),
             Form { name: "advance", gdef: false, prefixes: PLAIN, text: Box::new(move |i| format!("\\advance{lhs} by {}pt ", 100 * (i + 1))), apply: Box::new(|cur, i| format!("{}.0pt", pt(cur).0 + 100 * (i as i64 + 1))) },
         ],
+        default_text: Some(format!("{lhs}=0pt ")),
+        edge,
     };
-    v.push(Kind { name: "dimen", class: Class::Variable, setup: String::new(), targets: vec![dimen("dimen1", "\\dimen1"), dimen("dimen2", "\\dimen2")], nvals: NV });
+    v.push(Kind { name: "dimen", class: Class::Variable, setup: String::new(), targets: vec![dimen("dimen1", "\\dimen1", false), dimen("dimen32767", "\\dimen32767", true)], nvals: NV });
     let skip = |name: &'static str, lhs: &'static str| Target {
         name,
         setup: String::new(),
@@ -147,52 +169,63 @@ pub fn kinds() -> Vec<Kind> {
                 }),
             },
         ],
+        default_text: Some(format!("{lhs}=0pt ")),
+        edge: true,
     };
-    v.push(Kind { name: "skip", class: Class::Variable, setup: String::new(), targets: vec![skip("skip1", "\\skip1"), skip("skip2", "\\skip2")], nvals: NV });
+    v.push(Kind { name: "skip", class: Class::Variable, setup: String::new(), targets: vec![skip("skip0", "\\skip0"), skip("skip32767", "\\skip32767")], nvals: NV });
+    // token lists hold non-ASCII text (2-, 3- and 4-byte characters)
     let toks = |name: &'static str, lhs: &'static str, setup: &str, alias: Option<&'static str>| {
-        let mut forms = vec![abs_form("set", move |i| format!("{lhs}={{{}}}", i + 1), |i| (i + 1).to_string())];
+        let mut forms = vec![abs_form("set", move |i| format!("{lhs}={{ñ‰🙂{}}}", i + 1), |i| format!("ñ‰🙂{}", i + 1))];
         if let Some(a) = alias {
             forms.push(abs_form("set-through-alias", move |i| format!("{a}={{{}}}", 50 + i), |i| (50 + i).to_string()));
         }
-        Target { name, setup: setup.into(), probe: format!("\\the{lhs} "), initial: String::new(), forms }
+        Target { name, setup: setup.into(), probe: format!("\\the{lhs} "), initial: String::new(), forms, default_text: Some(format!("{lhs}={{}}")), edge: true }
     };
-    v.push(Kind { name: "toks", class: Class::Variable, setup: String::new(), targets: vec![toks("toks1", "\\toks1", "\\toksdef\\ta=1 ", Some("\\ta")), toks("toks2", "\\toks2", "", None)], nvals: NV });
-    let cat = |name: &'static str, ch: &'static str| Target {
+    v.push(Kind { name: "toks", class: Class::Variable, setup: String::new(), targets: vec![toks("toks0", "\\toks0", "\\toksdef\\ta=0 ", Some("\\ta")), toks("toks255", "\\toks255", "", None)], nvals: NV });
+    // `idx` is how the character is written after \catcode / \mathcode: `\| or a number
+    let cat = |name: &'static str, idx: &'static str, edge: bool| Target {
         name,
         // the starting value is pinned by an assignment outside all groups, not by texcraft's default table
-        setup: format!("\\catcode`\\{ch}=12 "),
-        probe: format!("\\the\\catcode`\\{ch} "),
+        setup: format!("\\catcode{idx}=12 "),
+        probe: format!("\\the\\catcode{idx} "),
         initial: "12".into(),
-        forms: vec![abs_form("set", move |i| format!("\\catcode`\\{ch}={} ", CATS[i % CATS.len()]), |i| CATS[i % CATS.len()].to_string())],
+        forms: vec![abs_form("set", move |i| format!("\\catcode{idx}={} ", CATS[i % CATS.len()]), |i| CATS[i % CATS.len()].to_string())],
+        default_text: Some(format!("\\catcode{idx}=12 ")),
+        edge,
     };
-    v.push(Kind { name: "catcode-low", class: Class::Variable, setup: String::new(), targets: vec![cat("catcode |", "|"), cat("catcode /", "/")], nvals: CATS.len() });
-    v.push(Kind { name: "catcode-high", class: Class::Variable, setup: String::new(), targets: vec![cat("catcode é", "é"), cat("catcode ß", "ß")], nvals: CATS.len() });
-    let mathcode = |name: &'static str, ch: &'static str| Target {
+    // low table: 0..=127, high table: everything above
+    v.push(Kind { name: "catcode-low", class: Class::Variable, setup: String::new(), targets: vec![cat("catcode |", "`\\|", false), cat("catcode 127", "127", true)], nvals: CATS.len() });
+    v.push(Kind { name: "catcode-high", class: Class::Variable, setup: String::new(), targets: vec![cat("catcode √", "`\\√", false), cat("catcode 128", "128", true)], nvals: CATS.len() });
+    let mathcode = |name: &'static str, idx: &'static str| Target {
         name,
-        setup: format!("\\mathcode`\\{ch}=777 "),
-        probe: format!("\\the\\mathcode`\\{ch} "),
+        setup: format!("\\mathcode{idx}=777 "),
+        probe: format!("\\the\\mathcode{idx} "),
         initial: "777".into(),
-        forms: vec![abs_form("set", move |i| format!("\\mathcode`\\{ch}={} ", i + 1), |i| (i + 1).to_string())],
+        // 32767: texcraft rejects "8000 (TeX accepts it for \\mathcode; not a scoping matter)
+        forms: vec![abs_form("set", move |i| format!("\\mathcode{idx}={} ", if i == 2 { 32767 } else { i + 1 }), |i| (if i == 2 { 32767 } else { i + 1 }).to_string())],
+        default_text: Some(format!("\\mathcode{idx}=777 ")),
+        edge: true,
     };
-    v.push(Kind { name: "mathcode", class: Class::Variable, setup: String::new(), targets: vec![mathcode("mathcode |", "|"), mathcode("mathcode é", "é")], nvals: NV });
+    // character 0 (first of the low table) and U+10FFFE (the largest texcraft accepts)
+    v.push(Kind { name: "mathcode", class: Class::Variable, setup: String::new(), targets: vec![mathcode("mathcode 0", "0"), mathcode("mathcode 1114110", "1114110")], nvals: NV });
     v.push(Kind {
         name: "endlinechar",
         class: Class::Variable,
         setup: String::new(),
-        targets: vec![Target { name: "endlinechar", setup: "\\endlinechar=13 ".into(), probe: "\\the\\endlinechar ".into(), initial: "13".into(), forms: vec![abs_form("set", |i| format!("\\endlinechar={} ", 65 + i), |i| (65 + i).to_string())] }],
+        targets: vec![Target { name: "endlinechar", setup: "\\endlinechar=13 ".into(), probe: "\\the\\endlinechar ".into(), initial: "13".into(), forms: vec![abs_form("set", |i| format!("\\endlinechar={} ", if i == 1 { -1 } else { 65 + i as i64 }), |i| (if i == 1 { -1 } else { 65 + i as i64 }).to_string())], default_text: Some("\\endlinechar=13 ".into()), edge: false }],
         nvals: NV,
     });
-    v.push(Kind { name: "time-singleton", class: Class::Variable, setup: String::new(), targets: vec![int_target("year", "\\year", 2000, "", None), int_target("month", "\\month", 1, "", None)], nvals: NV });
-    v.push(Kind { name: "newint", class: Class::Variable, setup: String::new(), targets: vec![int_target("newInt a", "\\na", 0, "\\newInt\\na ", None), int_target("newInt b", "\\nb", 0, "\\newInt\\nb ", None)], nvals: NV });
-    v.push(Kind { name: "newintarray", class: Class::Variable, setup: "\\newIntArray\\ia 3 ".into(), targets: vec![int_target("array[0]", "\\ia 0", 0, "", None), int_target("array[2]", "\\ia 2", 0, "", None)], nvals: NV });
-    // ---------------------------------------------------------------- commands
+    v.push(Kind { name: "time-singleton", class: Class::Variable, setup: String::new(), targets: vec![int_target("year", "\\year", 2000, "", None, false), int_target("month", "\\month", 1, "", None, false)], nvals: NV });
+    v.push(Kind { name: "newint", class: Class::Variable, setup: String::new(), targets: vec![int_target("newInt a", "\\na", 0, "\\newInt\\na ", None, false), int_target("newInt b", "\\nb", 0, "\\newInt\\nb ", None, false)], nvals: NV });
+    v.push(Kind { name: "newintarray", class: Class::Variable, setup: "\\newIntArray\\ia 3 ".into(), targets: vec![int_target("array[0]", "\\ia 0", 0, "", None, true), int_target("array[2]", "\\ia 2", 0, "", None, true)], nvals: NV });
+    // ---------------------------------------------------------------- commands (names: ASCII word, 3- and 4-byte control symbols, 2/3/4-byte active characters)
     let mac = |name: &'static str, lhs: &'static str| Target {
         name,
         setup: active_setup(lhs),
         probe: exec_probe(lhs),
         initial: format!("<undef {lhs}>"),
         forms: vec![
-            abs_form("def", move |i| format!("\\def{lhs}{{{}}}", i + 1), |i| (i + 1).to_string()),
+            abs_form("def", move |i| format!("\\def{lhs}{{ñ{}}}", i + 1), |i| format!("ñ{}", i + 1)),
             Form { name: "gdef", gdef: true, prefixes: PLAIN, text: Box::new(move |i| format!("\\gdef{lhs}{{{}}}", 50 + i)), apply: Box::new(|_, i| (50 + i).to_string()) },
             // \def with \long / \outer in every position relative to \global: scopes exactly like [\global]\def
             prefixed_def("long-def", ("\\long", "\\global\\long"), lhs, 100),
@@ -200,10 +233,13 @@ pub fn kinds() -> Vec<Kind> {
             prefixed_def("long-then-global-def", ("\\long", "\\long\\global"), lhs, 300),
             prefixed_def("outer-long-then-global-def", ("\\outer\\long", "\\outer\\long\\global"), lhs, 400),
             prefixed_def("global-then-long-outer-def", ("\\long\\outer", "\\global\\long\\outer"), lhs, 500),
+            prefixed_def("global-twice-def", ("", "\\global\\global"), lhs, 600),
         ],
+        default_text: None,
+        edge: false,
     };
-    v.push(Kind { name: "macro", class: Class::ControlSequence, setup: String::new(), targets: vec![mac("\\ma", "\\ma"), mac("\\mb", "\\mb")], nvals: NV });
-    v.push(Kind { name: "macro-active", class: Class::ActiveChar, setup: String::new(), targets: vec![mac("~", "~"), mac("!", "!")], nvals: NV });
+    v.push(Kind { name: "macro", class: Class::ControlSequence, setup: String::new(), targets: vec![mac("\\ma", "\\ma"), mac("\\€", "\\€")], nvals: NV });
+    v.push(Kind { name: "macro-active", class: Class::ActiveChar, setup: String::new(), targets: vec![mac("~", "~"), mac("é", "é")], nvals: NV });
     let xdefs: String = (0..NV).map(|i| format!("\\def\\x{}{{X{}}}", letter(b'a', i), letter(b'a', i))).collect();
     let lett = |name: &'static str, lhs: &'static str| Target {
         name,
@@ -214,61 +250,97 @@ pub fn kinds() -> Vec<Kind> {
             abs_form("let-macro", move |i| format!("\\let{lhs}=\\x{} ", letter(b'a', i)), |i| format!("X{}", letter(b'a', i))),
             abs_form("let-char", move |i| format!("\\let{lhs}={}", letter(b'A', i)), |i| letter(b'A', i).to_string()),
         ],
+        default_text: None,
+        edge: false,
     };
-    v.push(Kind { name: "let", class: Class::ControlSequence, setup: xdefs.clone(), targets: vec![lett("\\la", "\\la"), lett("\\lb", "\\lb")], nvals: NV });
-    v.push(Kind { name: "let-active", class: Class::ActiveChar, setup: xdefs.clone(), targets: vec![lett("~", "~"), lett("!", "!")], nvals: NV });
-    let counts: String = (0..NV).map(|i| format!("\\count{}={} ", 10 + i, 100 + i)).collect::<String>() + "\\count9=99 ";
+    v.push(Kind { name: "let", class: Class::ControlSequence, setup: xdefs.clone(), targets: vec![lett("\\la", "\\la"), lett("\\😀", "\\😀")], nvals: NV });
+    v.push(Kind { name: "let-active", class: Class::ActiveChar, setup: xdefs.clone(), targets: vec![lett("~", "~"), lett("€", "€")], nvals: NV });
+    let counts: String = (0..NV).map(|i| format!("\\count{}={} ", alias_index(i, 32767), 100 + i)).collect::<String>() + "\\count9=99 ";
     let cdef = |name: &'static str, lhs: &'static str| Target {
         name,
         setup: format!("{}\\countdef{lhs}=9 ", active_setup(lhs)),
         probe: format!("\\the{}", exec_probe(lhs)),
         initial: "99".into(),
-        forms: vec![abs_form("countdef", move |i| format!("\\countdef{lhs}={} ", 10 + i), |i| (100 + i).to_string())],
+        forms: vec![abs_form("countdef", move |i| format!("\\countdef{lhs}={} ", alias_index(i, 32767)), |i| (100 + i).to_string())],
+        default_text: Some(format!("\\countdef{lhs}=9 ")),
+        edge: false,
     };
     v.push(Kind { name: "countdef", class: Class::ControlSequence, setup: counts.clone(), targets: vec![cdef("\\cd", "\\cd"), cdef("\\ce", "\\ce")], nvals: NV });
-    v.push(Kind { name: "countdef-active", class: Class::ActiveChar, setup: counts.clone(), targets: vec![cdef("~", "~"), cdef("!", "!")], nvals: NV });
-    let tokss: String = (0..NV).map(|i| format!("\\toks{}={{T{}}}", 10 + i, i)).collect::<String>() + "\\toks9={T}";
+    v.push(Kind { name: "countdef-active", class: Class::ActiveChar, setup: counts.clone(), targets: vec![cdef("~", "~"), cdef("😀", "😀")], nvals: NV });
+    let tokss: String = (0..NV).map(|i| format!("\\toks{}={{T{}}}", alias_index(i, 255), i)).collect::<String>() + "\\toks9={T}";
     let tdef = |name: &'static str, lhs: &'static str| Target {
         name,
         setup: format!("\\toksdef{lhs}=9 "),
         probe: format!("\\the{lhs} "),
         initial: "T".into(),
-        forms: vec![abs_form("toksdef", move |i| format!("\\toksdef{lhs}={} ", 10 + i), |i| format!("T{i}"))],
+        forms: vec![abs_form("toksdef", move |i| format!("\\toksdef{lhs}={} ", alias_index(i, 255)), |i| format!("T{i}"))],
+        default_text: Some(format!("\\toksdef{lhs}=9 ")),
+        edge: false,
     };
     v.push(Kind { name: "toksdef", class: Class::ControlSequence, setup: tokss, targets: vec![tdef("\\td", "\\td"), tdef("\\te", "\\te")], nvals: NV });
+    // \chardef values: letters, a 3-byte character (8364 = €) and U+10FFFE
+    fn chr(i: usize) -> u32 {
+        match i {
+            3 => 8364,
+            4 => 1114110,
+            _ => 65 + i as u32,
+        }
+    }
     let chdef = |name: &'static str, lhs: &'static str| Target {
         name,
         setup: active_setup(lhs),
         probe: exec_probe(lhs),
         initial: format!("<undef {lhs}>"),
-        forms: vec![abs_form("chardef", move |i| format!("\\chardef{lhs}={} ", 65 + i), |i| letter(b'A', i).to_string())],
+        forms: vec![abs_form("chardef", move |i| format!("\\chardef{lhs}={} ", chr(i)), |i| char::from_u32(chr(i)).unwrap().to_string())],
+        default_text: None,
+        edge: false,
     };
-    v.push(Kind { name: "chardef", class: Class::ControlSequence, setup: String::new(), targets: vec![chdef("\\ch", "\\ch"), chdef("\\ci", "\\ci")], nvals: NV });
+    v.push(Kind { name: "chardef", class: Class::ControlSequence, setup: String::new(), targets: vec![chdef("\\ch", "\\ch"), chdef("\\ß", "\\ß")], nvals: NV });
     v.push(Kind { name: "chardef-active", class: Class::ActiveChar, setup: String::new(), targets: vec![chdef("~", "~"), chdef("!", "!")], nvals: NV });
     let mcdef = |name: &'static str, lhs: &'static str| Target {
         name,
         setup: format!("\\mathchardef{lhs}=999 "),
         probe: format!("\\the{lhs} "),
         initial: "999".into(),
-        forms: vec![abs_form("mathchardef", move |i| format!("\\mathchardef{lhs}={} ", i + 1), |i| (i + 1).to_string())],
+        forms: vec![abs_form("mathchardef", move |i| format!("\\mathchardef{lhs}={} ", if i == 2 { 32767 } else { i + 1 }), |i| (if i == 2 { 32767 } else { i + 1 }).to_string())],
+        default_text: Some(format!("\\mathchardef{lhs}=999 ")),
+        edge: false,
     };
     v.push(Kind { name: "mathchardef", class: Class::ControlSequence, setup: String::new(), targets: vec![mcdef("\\mc", "\\mc"), mcdef("\\md", "\\md")], nvals: NV });
-    // ---------------------------------------------------------------- current font
+    // ---------------------------------------------------------------- current font (\fna..\fns = 1..19, \fnt = 65535, \fnz = 0 = null font)
+    fn fontno(i: usize) -> u32 {
+        if i % 20 == 19 {
+            65535
+        } else {
+            (i % 20) as u32 + 1
+        }
+    }
     v.push(Kind {
         name: "font",
         class: Class::Font,
         setup: String::new(),
-        targets: vec![Target { name: "current font", setup: String::new(), probe: "\\probefont ".into(), initial: "F0".into(), forms: vec![abs_form("select", |i| format!("\\fn{} ", letter(b'a', i)), |i| format!("F{}", i + 1))] }],
+        targets: vec![Target {
+            name: "current font",
+            setup: String::new(),
+            probe: "\\probefont ".into(),
+            initial: "F0".into(),
+            forms: vec![
+                abs_form("select", |i| format!("\\fn{} ", letter(b'a', i % 20)), |i| format!("F{}", fontno(i))),
+                with_prefixes(abs_form("", |i| format!("\\fn{} ", letter(b'a', (i + 7) % 20)), |i| format!("F{}", fontno(i + 7))), "select-global-twice", ("", "\\global\\global")),
+            ],
+            default_text: Some("\\fnz ".into()),
+            edge: false,
+        }],
         nvals: NV,
     });
     // ---------------------------------------------------------------- \globaldefs itself
-    // three forms (+1, -1, 0: the sign is what matters) so that an alphabet can name them
-    let gd = |name: &'static str, val: i64| Form { name, gdef: false, prefixes: PLAIN, text: Box::new(move |_| format!("\\globaldefs={val} ")), apply: Box::new(move |_, _| val.to_string()) };
+    // three forms (positive, negative, zero: the sign is what matters; both 1 and the extreme value appear)
+    let gd = |name: &'static str, vals: [i64; 2]| Form { name, gdef: false, prefixes: PLAIN, text: Box::new(move |i| format!("\\globaldefs={} ", vals[i % 2])), apply: Box::new(move |_, i| vals[i % 2].to_string()) };
     v.push(Kind {
         name: "globaldefs",
         class: Class::GlobalDefs,
         setup: String::new(),
-        targets: vec![Target { name: "globaldefs", setup: String::new(), probe: "\\the\\globaldefs ".into(), initial: "0".into(), forms: vec![gd("=1", 1), gd("=-1", -1), gd("=0", 0)] }],
+        targets: vec![Target { name: "globaldefs", setup: String::new(), probe: "\\the\\globaldefs ".into(), initial: "0".into(), forms: vec![gd("=1", [1, 2147483647]), gd("=-1", [-1, -2147483647]), gd("=0", [0, 0])], default_text: None, edge: false }],
         nvals: NV,
     });
     v
